@@ -6,7 +6,7 @@
    case (run):  hooks ; df ; n ; e0 ; lscript ; senders ; beh ; sig ; tids
      hooks    1 = every program counter is a schedule point, 0 = system calls only
      df       1 = the code as it is (drain, then scan), 0 = the scan-before-drain variant
-     n        number of async handles
+     n        number of async handles, optionally ":<bitmask of the handles created with a NULL callback>"
      e0       initial eventfd counter
      lscript  R (uv_run ONCE) | D (uv_run DEFAULT) | N (uv_run NOWAIT) | C<h> (uv_close) | S (uv_stop)
      senders  scripts separated by '|', each a list of handle numbers
@@ -36,7 +36,10 @@ type case = { hooks : bool; df : bool; n : int; st0 : state; nsend : int;
 let parse_case (line : string) : case =
   match List.map String.trim (String.split_on_char ';' line) with
   | hooks :: df :: n :: e0 :: lscript :: senders :: beh :: sg :: rest ->
-    let n = int_of_string n in
+    let (n, nullmask) = match String.split_on_char ':' n with
+      | [a; b] -> (int_of_string a, int_of_string b)
+      | _ -> (int_of_string n, 0) in
+    let hascb k = let k = int_of_nat k in k >= 30 || (nullmask lsr k) land 1 = 0 in
     let scripts = List.map nat_list (String.split_on_char '|' senders) in
     let beha = Array.of_list (List.map cb_list (String.split_on_char '|' beh)) in
     let behf k = let k = int_of_nat k in if k < Array.length beha then beha.(k) else [] in
@@ -48,7 +51,7 @@ let parse_case (line : string) : case =
       | t :: _ -> List.map int_of_string (split_on ' ' t)
       | [] -> [] in
     { hooks = hooks = "1"; df = df <> "0"; n;
-      st0 = init (nat_of_int n) (z_of_string e0) (parse_lscript lscript) behf scripts;
+      st0 = init hascb (nat_of_int n) (z_of_string e0) (parse_lscript lscript) behf scripts;
       nsend = List.length scripts; sigt; tids }
   | _ -> failwith "bad case"
 
@@ -97,12 +100,17 @@ let ev_str = function
   | ECloseRet (h, b) -> Printf.sprintf "k%d=%s" (int_of_nat h) (string_of_z b)
   | ECloseCb h -> Printf.sprintf "x%d" (int_of_nat h)
   | EWrite ok -> if ok then "w1" else "w0"
+  | EAck (h, v) -> Printf.sprintf "a%d=%s" (int_of_nat h) (string_of_z v)
 
 let new_events (before : state) (after : state) : string =
   let k = List.length after.out - List.length before.out in
   let rec take k l = if k <= 0 then [] else match l with [] -> [] | x :: r -> x :: take (k - 1) r in
   let evs = List.rev (take k after.out) in
-  if evs = [] then "-" else String.concat "+" (List.map ev_str evs)
+  let is_ack = function EAck _ -> true | _ -> false in
+  let main = List.filter (fun e -> not (is_ack e)) evs in
+  let acks = List.sort compare (List.map ev_str (List.filter is_ack evs)) in
+  (if main = [] then "-" else String.concat "+" (List.map ev_str main)) ^ "." ^
+  (if acks = [] then "-" else String.concat "+" acks)
 
 let verdict (c : case) (s : state) : string =
   let m = mask c s in
@@ -213,7 +221,8 @@ let step_tokens (s : state) (s' : state) (tid : int) : string list =
     | ECb (h, v) -> [Printf.sprintf "c%d=%s" (int_of_nat h) (string_of_z v)]
     | ECloseRet (h, _) -> [Printf.sprintf "k%d" (int_of_nat h)]
     | ECloseCb h -> [Printf.sprintf "x%d" (int_of_nat h)]
-    | EWrite _ -> [] in
+    | EWrite _ -> []
+    | EAck _ -> [] in
   let send_tok =
     if tid = 0 then [] else
       match sender_pc s (tid - 1), sender_pc s' (tid - 1) with
@@ -301,7 +310,7 @@ let fork_case (line : string) : string =
       [pick 's'; pick 't'] in
     let runs who l = List.filter_map (fun t -> if t.[0] = who && t.[1] = 'r' then Some OpNowait else None) l in
     let nobeh _ = [] in
-    let p0 = init (nat_of_int n) Z0 (runs 'p' (pre @ all_post)) nobeh (scripts 'p' (pre @ all_post)) in
+    let p0 = init (fun _ -> true) (nat_of_int n) Z0 (runs 'p' (pre @ all_post)) nobeh (scripts 'p' (pre @ all_post)) in
     let obs (s : state) (counter : z) =
       String.concat "," (List.init n (fun i -> let h = s.hs (nat_of_int i) in
                            (if h.pending then "1" else "0") ^ string_of_z h.busy))
